@@ -177,24 +177,13 @@ func (e naiveEngine) oneStepEvalPremise(premise ast.Term, subst unionfind.UnionF
 			return nil
 		})
 	case ast.NegAtom:
-		a, err := functional.EvalAtom(p.Atom, subst)
-		if err != nil {
-			return nil
-		}
-		e.store.GetFacts(a, func(fact ast.Atom) error {
-			if _, err := unionfind.UnifyTermsExtend(p.Atom.Args, fact.Args, subst); err != nil {
-				solutions = append(solutions, subst)
-			}
-			return nil
-		})
+		// A negated atom holds when no stored fact unifies with it.
+		solutions, _ = premiseNegAtom(p.Atom, e.store, subst)
 	case ast.Eq:
-		if newsubst, err := unionfind.UnifyTermsExtend([]ast.BaseTerm{p.Left}, []ast.BaseTerm{p.Right}, subst); err == nil {
-			solutions = append(solutions, newsubst)
-		}
+		// Function expressions are evaluated before unification.
+		solutions, _ = premiseEq(p.Left, p.Right, subst)
 	case ast.Ineq:
-		if _, err := unionfind.UnifyTermsExtend([]ast.BaseTerm{p.Left}, []ast.BaseTerm{p.Right}, subst); err != nil {
-			solutions = append(solutions, subst)
-		}
+		solutions, _ = premiseIneq(p.Left, p.Right, subst)
 	}
 	return solutions
 }
